@@ -118,6 +118,8 @@ pub struct Shared {
     /// hook invoked at every user-function invocation (crash points, deferred writes, reads)
     pub on_invoke: RefCell<Option<Box<dyn FnMut(&Inv)>>>,
     pub armed: RefCell<Vec<Armed>>,
+    /// one-shot: the first handler of observer slot .0 subscribes on observer slot .1
+    pub armed_sub: RefCell<Option<(usize, usize)>>,
     /// one-shot injected panic: (which user function, how many matching invocations to skip)
     pub crash: RefCell<Option<(CrashAt, u32)>>,
     pub crashed: Cell<Option<CrashAt>>,
@@ -259,6 +261,8 @@ pub struct SubSlot {
     pub made_round: u32,
     pub delivered: u32,
     pub got_invalidated: bool,
+    /// made from inside an update handler of this round: first eligible in the next stabilise
+    pub made_in_handler_of_round: Option<u32>,
 }
 
 pub struct ObsSlot {
@@ -378,6 +382,7 @@ pub enum Action {
     ArmHandlerWrite(usize, usize, WKind),
     DropVar(usize),
     ArmPanic(CrashAt, u32),
+    ArmHandlerSubscribe(usize, usize),
     DropState,
     DropVarHandle(usize),
     Stabilise,
@@ -427,6 +432,7 @@ pub struct Ops {
     /// user functions at which a panic may be injected
     pub crash_points: Vec<(CrashAt, u32)>,
     pub drop_state: bool,
+    pub arm_handler_subscribe: bool,
     pub drop_var_handle: bool,
 }
 
@@ -493,10 +499,12 @@ pub struct World {
     pub arms_used: usize,
     pub dropped_model: BTreeMap<usize, SV>,
     pub crash_armed_once: bool,
+    pub armed_sub_once: bool,
     pub poisoned: bool,
     /// strong-count probes of every node built from a spec
     pub weaks: Vec<Box<dyn Fn() -> usize>>,
     /// C06 gating monitor: rounds in which a source produced an unsuppressed result
+    pub weak_state: WeakState,
     pub g_events: BTreeMap<GSrc, Vec<u32>>,
     pub g_last_run: BTreeMap<NodeKey, u32>,
     pub g_last_result: BTreeMap<NodeKey, SV>,
@@ -534,6 +542,7 @@ fn rhs_fn(bind: usize, then: bool, pos: u8) -> u16 {
 impl World {
     pub fn new(cfg: &WorldCfg) -> World {
         let state = Some(IncrState::new());
+        let weak_state = state.as_ref().unwrap().weak();
         let sh = Rc::new(Shared {
             log: RefCell::new(vec![]),
             round: Cell::new(0),
@@ -546,6 +555,7 @@ impl World {
             updates: RefCell::new(vec![]),
             on_invoke: RefCell::new(None),
             armed: RefCell::new(vec![]),
+            armed_sub: RefCell::new(None),
             crash: RefCell::new(None),
             crashed: Cell::new(None),
             cut_eq: Cell::new(false),
@@ -573,8 +583,10 @@ impl World {
             arms_used: 0,
             dropped_model: BTreeMap::new(),
             crash_armed_once: false,
+            armed_sub_once: false,
             poisoned: false,
             weaks: vec![],
+            weak_state,
             g_events: BTreeMap::new(),
             g_last_run: BTreeMap::new(),
             g_last_result: BTreeMap::new(),
@@ -743,8 +755,8 @@ impl World {
                 let then_h2 = second(then);
                 let els_h2 = second(els);
                 let (then, els) = (then.clone(), els.clone());
-                let ws: WeakState = self.state.as_ref().unwrap().weak();
-                Handle::S(lhs_h.bind(move |x: &SV| {
+                Handle::S(lhs_h.binds(move |ws_arg: &WeakState, x: &SV| {
+                    let ws = ws_arg.clone();
                     let _ = &g;
                     sh.invoke(NodeKey::BindFn(i), vec![x.clone()]);
                     let take_then = decide_pred(i as u16, &[x.clone()]);
@@ -875,6 +887,8 @@ impl World {
     }
 
     pub fn drop_all_handles(&mut self) {
+        let ws = self.weak_state.clone();
+        let _ = &ws;
         for s in self.obs.borrow_mut().iter_mut() {
             s.handles.clear();
         }
@@ -937,6 +951,9 @@ impl World {
     /// and once more when every handle and the state are gone).
     pub fn leak_check(&self, when: &str) {
         let retained = self.retained();
+        if self.state.is_none() && self.weak_state.strong_count() != 0 {
+            violation("C12/state-not-released", format!("{when}: the IncrState handle was dropped but the state is still alive (strong_count = {})", self.weak_state.strong_count()));
+        }
         for (i, probe) in self.weaks.iter().enumerate() {
             if !retained.contains(&i) && probe() != 0 {
                 let kind = self.nodes[i].spec.kind_name();
@@ -1457,6 +1474,17 @@ impl World {
         if self.dirty {
             v.push(Action::Stabilise);
         }
+        if o.arm_handler_subscribe && self.sh.armed_sub.borrow().is_none() && !self.armed_sub_once {
+            for (k, s) in obs.iter().enumerate() {
+                if s.subs.iter().any(|x| x.active) {
+                    for (k2, s2) in obs.iter().enumerate() {
+                        if k2 != k && !s2.handles.is_empty() && s2.st != OSt::Dead && s2.subs.len() < self.cfg.max_subs {
+                            v.push(Action::ArmHandlerSubscribe(k, k2));
+                        }
+                    }
+                }
+            }
+        }
         if !self.crash_armed_once {
             for (at, skip) in &o.crash_points {
                 let ok = match at {
@@ -1480,7 +1508,7 @@ impl World {
                     v.push(Action::DropVar(*i));
                 }
             }
-            if self.sh.armed.borrow().len() + self.arms_used < 2 {
+            if self.arms_used < 2 {
                 for (i, _) in &self.vars {
                     if self.var_dropped.contains(i) || !o.arm_vars.contains(i) {
                         continue;
@@ -1493,8 +1521,9 @@ impl World {
                     if o.arm_handlers {
                         for (k, s) in obs.iter().enumerate() {
                             if !s.subs.is_empty() && s.subs[0].active {
-                                v.push(Action::ArmHandlerWrite(k, *i, WKind::Set));
-                                v.push(Action::ArmHandlerWrite(k, *i, WKind::Update));
+                                for wk in WKINDS {
+                                    v.push(Action::ArmHandlerWrite(k, *i, wk));
+                                }
                             }
                         }
                     }
@@ -1643,6 +1672,11 @@ impl World {
                 self.arms_used += 1;
                 self.dirty = true;
             }
+            Action::ArmHandlerSubscribe(from, to) => {
+                *self.sh.armed_sub.borrow_mut() = Some((*from, *to));
+                self.armed_sub_once = true;
+                self.dirty = true;
+            }
             Action::ArmPanic(at, skip) => {
                 *self.sh.crash.borrow_mut() = Some((*at, *skip));
                 self.crash_armed_once = true;
@@ -1754,6 +1788,27 @@ impl World {
                     let read = weak_obs.upgrade().and_then(|o| o.try_borrow().ok().and_then(|o| o[slot].handles.first().map(|h| h.try_get_value())));
                     sh.updates.borrow_mut().push(UpdLog { round: sh.round.get(), during_stabilise_call: sh.in_stabilise.get(), slot, sub: j, upd: u.cloned(), read });
                     sh.fire(Trigger::Handler(slot), true);
+                    let arm = {
+                        let mut a = sh.armed_sub.borrow_mut();
+                        if a.map_or(false, |(from, _)| from == slot) { a.take() } else { None }
+                    };
+                    if let (Some((_, target)), Some(o)) = (arm, weak_obs.upgrade()) {
+                        // subscribe on another observer from inside this handler
+                        let h = o.borrow()[target].handles.first().cloned();
+                        if let Some(h) = h {
+                            let nsub = o.borrow()[target].subs.len();
+                            let (sh3, wo3) = (sh.clone(), weak_obs.clone());
+                            let r = h.try_subscribe(move |u: Update<&SV>| {
+                                let read = wo3.upgrade().and_then(|o| o.try_borrow().ok().and_then(|o| o[target].handles.first().map(|h| h.try_get_value())));
+                                sh3.updates.borrow_mut().push(UpdLog { round: sh3.round.get(), during_stabilise_call: sh3.in_stabilise.get(), slot: target, sub: nsub, upd: u.cloned(), read });
+                            });
+                            drop(h);
+                            if let Ok(token) = r {
+                                cover("subscription-made-inside-a-handler");
+                                o.borrow_mut()[target].subs.push(SubSlot { token, active: true, made_round: sh.round.get(), delivered: 0, got_invalidated: false, made_in_handler_of_round: Some(sh.round.get()) });
+                            }
+                        }
+                    }
                     sh.maybe_crash(CrashAt::Handler(slot));
                 });
                 drop(h);
@@ -1765,7 +1820,7 @@ impl World {
                         if obs[*k].st == OSt::InUse && obs.iter().filter(|s| s.node == obs[*k].node && s.st == OSt::InUse).any(|s| s.subs.iter().any(|x| x.active)) {
                             cover("second-subscription-on-subscribed-node");
                         }
-                        obs[*k].subs.push(SubSlot { token, active: true, made_round: self.sh.round.get(), delivered: 0, got_invalidated: false });
+                        obs[*k].subs.push(SubSlot { token, active: true, made_round: self.sh.round.get(), delivered: 0, got_invalidated: false, made_in_handler_of_round: None });
                         self.dirty = true;
                     }
                     (_, Err(e)) => violation("C10/subscribe-rejected", format!("subscribe on a live observer returned Err({e:?})")),
@@ -1969,7 +2024,8 @@ impl World {
                         Changed(SV),
                         Invalidated,
                     }
-                    let exp = if !active || got_inv {
+                    let made_now = self.obs.borrow()[k].subs[j].made_in_handler_of_round == Some(round);
+                    let exp = if !active || got_inv || made_now {
                         Exp::None
                     } else if invalid {
                         Exp::Invalidated
